@@ -12,19 +12,27 @@
 EXTENDS ObjectRT, Json
 
 CONSTANTS MaxLen,     \* history length
-          Mode        \* "bfs": print every transition; "sim": print histories of length MaxLen
-VARIABLES h, ini
+          Mode,       \* "bfs": print every transition; "sim": print histories of length MaxLen
+          DeepLeafTags, DeepStepTags, DeepSelDepth, DeepActNames, DeepInits
+                      \* "bfs": the first operation ranges over the full alphabet (Ops) from every
+                      \* initial object, later ones over this reduced alphabet, from DeepInits only
+VARIABLES h, ini, dk    \* dk: every operation so far was in the reduced alphabet
 
 StepRec(t, op, r) == [sel |-> op.sel, act |-> op.act, ok |-> r.ok, tree |-> r.tree, sit |-> Sit(t, op.sel, op.act), fam |-> Family(op.act)]
 CaseRec(i, hh, t) == [init |-> i, steps |-> hh, rt |-> RTCase(t)]
 
-GInit == /\ Init /\ h = <<>> /\ ini = (IF tree = EmptyTree THEN "empty" ELSE "seeded")
+GInit == /\ Init /\ h = <<>> /\ dk = TRUE /\ ini = (IF tree = EmptyTree THEN "empty" ELSE "seeded")
+DeepOps == { op \in Ops : /\ Len(op.sel) <= DeepSelDepth /\ op.act.a \in DeepActNames
+                          /\ op.sel[Len(op.sel)].tag \in DeepLeafTags
+                          /\ \A i \in 1..(Len(op.sel) - 1) : op.sel[i].tag \in DeepStepTags }
+OpsAt(d) == IF Mode = "sim" THEN {RandomElement(Ops)} ELSE IF d = 0 THEN Ops ELSE DeepOps
 GNext == /\ Len(h) < MaxLen
-         /\ \E op \in (IF Mode = "sim" THEN {RandomElement(Ops)} ELSE Ops) :
+         /\ (Mode = "sim" \/ Len(h) = 0 \/ (dk /\ ini \in DeepInits))
+         /\ \E op \in OpsAt(Len(h)) :
               LET r  == Apply(tree, op)
                   h2 == Append(h, StepRec(tree, op, r))
-              IN /\ tree' = r.tree /\ h' = h2 /\ ini' = ini
+              IN /\ tree' = r.tree /\ h' = h2 /\ ini' = ini /\ dk' = (dk /\ Mode = "bfs" /\ op \in DeepOps)
                  /\ (Mode = "bfs" \/ Len(h2) = MaxLen) => PrintT(<<"CASE", ToJson(CaseRec(ini, h2, r.tree))>>)
-GSpec == GInit /\ [][GNext]_<<tree, h, ini>>
-View == <<tree, Len(h), ini>>
+GSpec == GInit /\ [][GNext]_<<tree, h, ini, dk>>
+View == <<tree, Len(h), ini, dk>>
 =============================================================================
